@@ -368,6 +368,8 @@ def child_env(config):
         env["PYTHONMALLOC"] = config["malloc"]
     if config.get("optimize"):
         env["PYTHONOPTIMIZE"] = str(config["optimize"])
+    if config.get("tz"):
+        env["TZ"] = config["tz"]
     return env
 
 
@@ -403,6 +405,9 @@ def choose_configs(seed, count):
             "pad": rng.choice([0, 17, 256, 1031, 4099, 8192, 20000, 50000, 100000]),
             "malloc": rng.choice(["", "", "malloc"]),
             "optimize": rng.choice([0, 0, 0, 2]),
+            # the only clock-like input a process has without a fake-time
+            # library: its time zone (UTC+14 and UTC-12 never share a date)
+            "tz": rng.choice(["", "UTC", "LINT-14", "BIT12"]),
             # what else the process has done is part of its configuration:
             # each interpreter processes its batch in its own order
             "order": rng.randint(1, 10**6),
@@ -815,7 +820,7 @@ def _check(tier, seed, n_docs, configs, orders_reachable, n_cli, n_cli_conf, wor
         },
         "components": {
             "real": ["statham/* from /repo working tree", "json_ref_dict", "CPython interpreters (one per configuration)", "python -m statham command line"],
-            "seam": ["PYTHONHASHSEED", "setarch -R (ASLR off)", "environment padding", "PYTHONMALLOC", "PYTHONOPTIMIZE"],
+            "seam": ["PYTHONHASHSEED", "setarch -R (ASLR off)", "environment padding", "PYTHONMALLOC", "PYTHONOPTIMIZE", "TZ"],
             "stub": [],
         },
         "determinism_sample": {"same_configuration_twice_identical": det_ok},
